@@ -1085,34 +1085,14 @@ func c09Zero(r *fw.Run, p *fw.Program) {
 					if !start || !step {
 						ok, why = false, "loop counter does not run 0,1,2,..."
 					} else {
-						// bound: facts at the store block: i < bound, i.e. bound - i > 0
+						// the body runs for i = 0 .. bound-1 (classic or rotated loop form)
 						want := fw.PAtom("ceil8(" + n.String() + ")")
-						iP := s.Of(ph)
-						found := false
-						var gotB *fw.Poly
-						for _, f := range s.E().Facts(st.Block()) {
-							// f.P = i - bound  (LT)   or bound - i (GT)
-							var b *fw.Poly
-							switch f.Rel {
-							case fw.LT:
-								b = iP.Sub(f.P)
-							case fw.GT:
-								b = f.P.Add(iP)
-							default:
-								continue
-							}
-							gotB = b
-							if b.Equal(want) {
-								found = true
-							}
-						}
-						if !found {
-							ok = false
-							if gotB != nil {
-								why = "zero-fill covers " + gotB.String() + " bytes, want " + want.String() + " (a trailing partial byte would keep stale bits)"
-							} else {
-								why = "zero-fill loop bound not found"
-							}
+						gotB, whyB := s.countedLoopBound(ph, st.Block())
+						switch {
+						case gotB == nil:
+							ok, why = false, "zero-fill loop bound not found: "+whyB
+						case !gotB.Equal(want):
+							ok, why = false, "zero-fill covers "+gotB.String()+" bytes, want "+want.String()+" (a trailing partial byte would keep stale bits)"
 						}
 					}
 				}
@@ -1197,4 +1177,111 @@ func (s *c09Sym) summariseMinPhis() {
 	for _, x := range subs {
 		s.summarise(x.ph, x.p)
 	}
+}
+
+// c09EdgeCmp: the integer comparison that holds when control flows from block x to its successor
+// t because of x's own terminating If.
+func (s *c09Sym) edgeCmp(x, t *ssa.BasicBlock) (fw.Cmp, bool) {
+	if len(x.Instrs) == 0 || len(x.Succs) != 2 || x.Succs[0] == x.Succs[1] {
+		return fw.Cmp{}, false
+	}
+	ifi, ok := x.Instrs[len(x.Instrs)-1].(*ssa.If)
+	if !ok {
+		return fw.Cmp{}, false
+	}
+	g := fw.Guard{Cond: ifi.Cond, True: x.Succs[0] == t}.Normalize()
+	c, ok := s.E().CmpOf(g.Cond)
+	if !ok {
+		return fw.Cmp{}, false
+	}
+	if !g.True {
+		c.Rel = c.Rel.Negate()
+	}
+	return c, true
+}
+
+// c09BoundFrom: c is `counter < B` in some spelling; returns B.
+func c09BoundFrom(c fw.Cmp, counter *fw.Poly) *fw.Poly {
+	switch c.Rel {
+	case fw.LT: // counter - B < 0
+		return counter.Sub(c.P)
+	case fw.LE: // counter - (B-1) <= 0
+		return counter.Sub(c.P).Add(fw.PConst(1))
+	case fw.GT: // B - counter > 0
+		return c.P.Add(counter)
+	case fw.GE: // (B-1) - counter >= 0
+		return c.P.Add(counter).Add(fw.PConst(1))
+	}
+	return nil
+}
+
+// countedLoopBound: ph is a counter 0,1,2,... (edges {0, ph+1}); returns B such that the block
+// body is executed exactly for ph = 0 .. B-1. Two loop shapes are recognised:
+//
+//	classic:  head: ph = phi(0, ph+1); if ph < B goto body else done          (for i := 0; i < B; i++)
+//	rotated:  pre: if 0 < B goto body else done; body: ph = phi(0, ph+1) ...; if ph+1 < B goto body
+//	          (for i := range B)
+//
+// body must be executed on every iteration (it dominates the latch).
+func (s *c09Sym) countedLoopBound(ph *ssa.Phi, body *ssa.BasicBlock) (*fw.Poly, string) {
+	h := ph.Block()
+	if len(ph.Edges) != 2 || len(h.Preds) != 2 {
+		return nil, "counter is not a two-way phi"
+	}
+	var pre, latch *ssa.BasicBlock
+	var next ssa.Value
+	for i, ed := range ph.Edges {
+		if c, isC := c09ConstInt(ed); isC && c == 0 {
+			pre = h.Preds[i]
+		} else {
+			latch, next = h.Preds[i], ed
+		}
+	}
+	if pre == nil || latch == nil {
+		return nil, "counter does not start at 0"
+	}
+	if body != latch && !body.Dominates(latch) {
+		return nil, "the body is not executed on every iteration"
+	}
+	mentions := func(p *fw.Poly, q *fw.Poly) bool {
+		for _, a := range q.Atoms() {
+			for _, b := range p.Atoms() {
+				if a == b {
+					return true
+				}
+			}
+		}
+		return false
+	}
+	iP := s.Of(ph)
+	// classic: the head tests the counter
+	if body != h {
+		var t *ssa.BasicBlock
+		for _, sc := range h.Succs {
+			if sc == body || sc.Dominates(body) {
+				t = sc
+			}
+		}
+		if t != nil && len(t.Preds) == 1 {
+			if c, ok := s.edgeCmp(h, t); ok {
+				if b := c09BoundFrom(c, iP); b != nil && !mentions(b, iP) {
+					return b, ""
+				}
+			}
+		}
+	}
+	// rotated: tested before entering (counter 0) and at the latch (counter+1)
+	if body == h || h.Dominates(body) {
+		c0, ok0 := s.edgeCmp(pre, h)
+		c1, ok1 := s.edgeCmp(latch, h)
+		if ok0 && ok1 {
+			b0 := c09BoundFrom(c0, fw.PConst(0))
+			b1 := c09BoundFrom(c1, s.Of(next))
+			if b0 != nil && b1 != nil && b0.Equal(b1) && !mentions(b0, iP) {
+				return b0, ""
+			}
+			return nil, "entry test and continuation test of the loop do not agree on one bound"
+		}
+	}
+	return nil, "no `counter < bound` test controls the loop"
 }
